@@ -55,14 +55,19 @@ def parser_sets(repo):
     stop = _unescape_rust(m[0][0])
     control = _unescape_rust(m[0][1])[0]
     esc = re.findall(r'combinator::value\("((?:[^"\\]|\\.)*)",\s*bytes::tag\("((?:[^"\\]|\\.)*)"\)\)', lit)
-    if not esc:
-        raise Undecided("anchor lost: escape alternatives in fn literal")
+    one_of = re.findall(r"'(?:[^'\\]|\\.)',\s*(?://[^\n]*\n\s*)*character::one_of\(\"((?:[^\"\\]|\\.)*)\"\)", lit)
     esc_pairs = []
-    for v, t in esc:
-        v, t = _unescape_rust(v), _unescape_rust(t)
-        if len(v) != 1 or len(t) != 1:
-            raise Undecided("escape alternative is not a single character")
-        esc_pairs.append((t[0], v[0]))
+    if esc and not one_of:
+        for v, t in esc:
+            v, t = _unescape_rust(v), _unescape_rust(t)
+            if len(v) != 1 or len(t) != 1:
+                raise Undecided("escape alternative is not a single character")
+            esc_pairs.append((t[0], v[0]))
+    elif len(one_of) == 1 and not esc:
+        # the other spelling of the same list: `character::one_of("...")`, each character for itself
+        esc_pairs = [(c, c) for c in _unescape_rust(one_of[0])]
+    else:
+        raise Undecided("anchor lost: escape alternatives in fn literal")
     cls = _fn_body(text, "class")
     m = re.findall(r'character::none_of\("((?:[^"\\]|\\.)*)"\)', cls)
     if len(m) != 1:
